@@ -1440,6 +1440,20 @@ func corpus() [][]string {
 			[]string{"new 2 0", "0 arm 10", "2 add 10 21 plain", "4 add 11 23 plain", "6 add 12 19 block", "8 add 13 25 plain", "10 shutdown i", "12 ecancel 10", "14 release 10", "16 release 12", "end 30"})
 	}
 
+	// A plain Shutdown() (no flag) while the poller holds an element (parked in the hook between timer creation and
+	// select), then the element's time passes, then it is cancelled, and only then the poller goes on: the context, the
+	// cancel channel and the timer are all ready.  The outer select picks one of the three at random; behind the context
+	// case the inner select of the shutdown branch picks between the cancel channel and the timer, again at random, and
+	// the timer case has to look at the cancel channel once more.  A cancelled element must not be delivered on any of
+	// these paths (one in six runs takes the inner timer case: many copies), the element behind it still runs at its time.
+	// (A TaskExecutor task is protected a second time by its wrapper's registration test: the raw task is the sharper probe.)
+	for i := 0; i < 48; i++ {
+		c = append(c, []string{"new 1 0", "0 arm 10", "2 add 10 5 plain", "4 add 11 17 plain", "6 shutdown -", "8 ecancel 10", "10 release 10", "end 22"})
+		if i%4 == 0 {
+			c = append(c, []string{"new 1 0", "0 arm 10", "2 exec 1 10 5 plain", "4 exec 2 11 17 plain", "6 xshutdown -", "8 cancel 1", "10 release 10", "end 22"})
+		}
+	}
+
 	return c
 }
 
